@@ -292,6 +292,17 @@ func (k Keeper) CancelOrder(ctx sdk.Context, orderId uint64) error {
 	return nil
 }
 
+// CancelPendingFirstOrder handles the end of life of a model that was never stored: if its
+// first order is still pending (the gateway never handed it out) the order is cancelled and
+// refunded together with the model, instead of surviving it. Reports whether it did so.
+func (k Keeper) CancelPendingFirstOrder(ctx sdk.Context, metadata types.Metadata) bool {
+	order, found := k.order.GetOrder(ctx, metadata.OrderId)
+	if !found || order.Status != ordertypes.OrderPending || order.DataId != metadata.DataId {
+		return false
+	}
+	return k.CancelOrder(ctx, order.Id) == nil
+}
+
 func (k Keeper) RollbackMeta(ctx sdk.Context, dataId string) {
 
 	metadata, found := k.GetMetadata(ctx, dataId)
